@@ -12,6 +12,10 @@ list(s), list(reversed(s)), len(s), first, last, plus the operation's own result
      its operations and do not affect it (signature other-set-changed).
      elements that are metamodel INSTANCES (level 'inst'): what the metamodel does to an element (delete / create / change it)
      is no operation on the set, every observer goes on agreeing with the history of the set operations; D and K (list level).
+     equal but not identical elements (level 'eqv'): every operand is a freshly built object equal to the element meant; a set
+     knows its elements up to equality, so an equal object arriving again changes nothing; D and K (list level).
+     re-add loop (levels eqv / inst, ops iter-readd / riter-readd, D only): the loop body removes the visited element and puts
+     it back; every other element is still visited exactly once, in order, and the re-added ones are last, in that order.
   K  (correspondence): the same observables from lean/PyxModel/OSet.lean (abstract level) and, for
      add/discard/iter-rm sequences, lean/PyxModel/OSetPtr.lean (pointer level).
 """
@@ -32,7 +36,12 @@ RULE = ('exhaustive op sequences (quick: length 3, thorough: length 4) over a fi
         'instances of a metamodel (two classes with the same attributes), the set is built by select_many (with / without filter), '
         'from a list, by single adds or by inst + inst, and between the set operations instances are deleted from / created in / '
         'changed in the metamodel: exhaustively who of three instances is deleted before / after the set was built for every '
-        'route, plus random sequences (non-trivial: a held instance was deleted from the metamodel while the set held >= 2)')
+        'route, plus random sequences (non-trivial: a held instance was deleted from the metamodel while the set held >= 2); '
+        'level eqv: the elements are values (tuples, strings, frozensets, integers beyond the small-int cache, 1 / 1.0 / True / 1+0j '
+        'in turn, small integers) and every operand is a freshly built EQUAL object: exhaustively which of three held elements '
+        'arrives again by add / |= / construction, plus random sequences (non-trivial: a held element that is not last arrived '
+        'again); re-add loops (the body removes the visited element by discard / remove / -= and adds it again by add / |=): '
+        'exhaustively every non-empty subset of three elements x six bodies x both directions, plus random sequences')
 EXHAUSTIVE = {'quick': True, 'thorough': True}
 ASSUMPTIONS = ['elements are hashable values compared by ==; the universe is small integers (level inst: instances of a '
                'metamodel, compared by identity; levels exotic / str: D only)',
@@ -192,6 +201,45 @@ def generate(ctx):
                     ops.append([nm] + [r.randrange(12) for _ in range(r.randint(0, 5))])
         yield {'cls': r.choice(['OrderedSet', 'QuerySet', 'QuerySet']), 'level': 'inst', 'kinds': kinds, 'ops': ops,
                'other': r.choice(['oset', 'list'])}
+    # EQUAL but not IDENTICAL elements (level 'eqv', same engine as level 'inst'; D, and K against the list-level model):
+    # element i is a value and every operand is a freshly built object equal to it - a new tuple / string / frozenset, an
+    # integer beyond CPython's cache, 1 / 1.0 / True / (1+0j) in turn; flavour 'int' = the small integers themselves.
+    # A mathematical set knows elements up to equality: an equal object arriving again changes nothing.
+    # And the re-add loop (levels eqv and inst, D only): the loop body removes the visited element and puts it back.
+    flavours = ['tuple', 'str', 'bigint', 'frozenset', 'num', 'int']
+    for cls in ('OrderedSet', 'QuerySet'):
+        for fl in flavours:
+            for j in range(3):
+                for again in (['add', j], ['ior', j, 3], ['ior', 2, j], ['ctor', 0, 1, 2, j, 1]):
+                    yield {'cls': cls, 'level': 'eqv', 'flavour': fl, 'n': 4, 'other': 'list',
+                           'ops': [['ctor', 0, 1, 2], again, ['eq', 0, 1, 2], ['pop-first'], ['pop-last']]}
+        for fl in ('int', 'tuple'):
+            for how in range(6):
+                for mask in range(1, 8):
+                    for nm in ('iter-readd', 'riter-readd'):
+                        yield {'cls': cls, 'level': 'eqv', 'flavour': fl, 'n': 3, 'other': 'list',
+                               'ops': [['ctor', 0, 1, 2], [nm, how] + [i for i in range(3) if mask >> i & 1], ['pop-first']]}
+    rngq = ctx.rng.fork('eqv')
+    for i in range(ctx.pick(500, 8000)):
+        r = rngq.fork(i)
+        names = set_ops[:-1] + (['iter-readd', 'riter-readd', 'iter-readd', 'add', 'ior'] if r.random() < 0.4 else ['add', 'ior'])
+        ops = [['ctor'] + [r.randrange(12) for _ in range(r.randint(0, 6))]] if r.random() < 0.7 else []
+        for _ in range(r.randint(2, ctx.pick(14, 40))):
+            nm = r.choice(names)
+            if nm in ('add', 'discard', 'remove'):
+                ops.append([nm, r.randrange(12)])
+            elif nm in ('pop-last', 'pop-first', 'clear'):
+                ops.append([nm])
+            elif nm in ('iter-readd', 'riter-readd'):
+                ops.append([nm, r.randrange(6)] + [r.randrange(12) for _ in range(r.randint(1, 4))])
+            else:
+                ops.append([nm] + [r.randrange(12) for _ in range(r.randint(0, 5))])
+        case = {'cls': r.choice(['OrderedSet', 'QuerySet']), 'ops': ops, 'other': r.choice(['oset', 'list'])}
+        if r.random() < 0.2:
+            case.update(level='inst', kinds=[0] * r.randint(2, 6))
+        else:
+            case.update(level='eqv', flavour=r.choice(flavours), n=r.randint(2, 6))
+        yield case
 
 
 def _first_last(s, cls):
@@ -365,19 +413,56 @@ def _run_inst(case):
         i = ids.get(id(e))
         return i if i is not None and table[i] is e else Sym('foreign')
 
-    for kind in case['kinds']:
+    for kind in case.get('kinds', ()):
         new(kind)
+    # level 'eqv': the elements are VALUES, and every time the harness hands element i to the set (or asks about it) it
+    # builds a fresh object that is EQUAL to (same hash as), but not identical with, the one the set may already hold
+    flavour = case.get('flavour')
+    calls = [0]
+
+    def mk(i):
+        if flavour is None:
+            return table[i]
+        calls[0] += 1
+        if flavour == 'tuple':
+            return tuple(['k', i])
+        if flavour == 'str':
+            return ''.join(['key', str(i)])
+        if flavour == 'bigint':
+            return int(str(10 ** 12 + i))
+        if flavour == 'frozenset':
+            return frozenset(['x', i])
+        if flavour == 'num':             # 1 == 1.0 == True == (1+0j): one mathematical element, several representatives
+            return [int, float, complex, (lambda v: bool(v) if v < 2 else float(v))][calls[0] % 4](i)
+        return i                         # 'int': small integers (identical objects in CPython)
+
+    def size():
+        return len(table) if flavour is None else case['n']
+
+    if flavour is not None:
+        def name(e):                     # noqa: F811 - values are recognised by EQUALITY, whichever representative is held
+            if e is None:
+                return Sym('none')
+            try:
+                i = {'tuple': lambda: e[1], 'str': lambda: int(e[3:]), 'bigint': lambda: e - 10 ** 12,
+                     'frozenset': lambda: [v for v in e if v != 'x'][0], 'num': lambda: int(e.real), 'int': lambda: e}[flavour]()
+                return i if isinstance(i, int) and 0 <= i < size() and mk(i) == e else Sym('foreign')
+            except Exception:
+                return Sym('foreign')
     s = cls()
     oracle = []                  # creation indices of the present elements, first insertion first
     obs, mops, fails, done = [], [], [], []
-    stats = {'fam_inst': 1}
+    stats = {'fam_inst': 1} if case.get('flavour') is None else {'fam_eqv': 1, 'eqv_' + case['flavour']: 1}
     nontrivial = False
     stop = False
+    no_model = False
 
     def fail(sig, what):
-        fails.append({'sig': sig, 'what': '%s with instances as elements (kinds %r; delete / touch / new are events of the '
-                      'metamodel, not of the set): %s after ops %s'
-                      % (case['cls'], case['kinds'], what, dumps([[Sym(o[0])] + o[1:] for o in done]))})
+        how = ('instances as elements (kinds %r; delete / touch / new are events of the metamodel, not of the set)' % (case['kinds'],)
+               if flavour is None else 'elements named by number, flavour %s (element 1 = %r; but for flavour int every operand is '
+               'a freshly built EQUAL object, not the identical one)' % (flavour, mk(1)))
+        fails.append({'sig': sig, 'what': '%s with %s: %s after ops %s'
+                      % (case['cls'], how, what, dumps([[Sym(o[0])] + o[1:] for o in done]))})
 
     def ends():
         f, l = (s.first, s.last) if qs else (next(iter(s), None), next(reversed(s), None))
@@ -387,14 +472,16 @@ def _run_inst(case):
         return (lst[0], lst[-1]) if lst else (Sym('none'), Sym('none'))
 
     def operand(args):
-        insts = [table[i] for i in args]
+        insts = [mk(i) for i in args]
         return cls(insts) if case.get('other', 'oset') == 'oset' else insts
 
     for op in case['ops']:
-        if stop or not table:
+        if stop or not size():
             break
         nm = op[0]
-        args = [i % len(table) for i in op[1:]] if nm not in ('select', 'where', 'new') else list(op[1:])
+        if flavour is not None and nm in ('select', 'where', 'new', 'delete', 'touch', 'plus', 'iter-rm-del'):
+            continue                     # events of a metamodel: level 'inst' only
+        args = [i % size() for i in op[1:]] if nm not in ('select', 'where', 'new') else list(op[1:])
         done.append([nm] + args)
         before = list(oracle)
         res = Sym('ok')
@@ -435,7 +522,7 @@ def _run_inst(case):
                 q = table[args[0]] + table[args[1]]
                 hist = list(dict.fromkeys(args))
             else:
-                q = [table[i] for i in args]
+                q = [mk(i) for i in args]
                 hist = list(dict.fromkeys(args))
             s = q if (nm != 'ctor' and qs) else cls(q)
             got = [name(e) for e in s]
@@ -451,15 +538,18 @@ def _run_inst(case):
             obs.append([Sym('ok'), [], [], 0, Sym('none'), Sym('none')])
             mop = [[Sym('clear')], [Sym('ior')] + oracle]
         elif nm == 'add':
-            s.add(table[args[0]])
+            s.add(mk(args[0]))
+            if args[0] in oracle[:-1]:
+                nontrivial |= flavour is not None        # an element that is held, and not last, arrives again
+                stats['readded_while_held'] = stats.get('readded_while_held', 0) + 1
             if args[0] not in oracle:
                 oracle.append(args[0])
         elif nm == 'discard':
-            s.discard(table[args[0]])
+            s.discard(mk(args[0]))
             oracle = [k for k in oracle if k != args[0]]
         elif nm == 'remove':
             try:
-                s.remove(table[args[0]])
+                s.remove(mk(args[0]))
                 if args[0] not in before:
                     fail('remove-absent-accepted', 'remove of the absent instance %d did not raise KeyError' % args[0])
             except KeyError:
@@ -509,7 +599,7 @@ def _run_inst(case):
             if nm == 'or' and res[:len(before)] != before:
                 fail('or-order', 'a | b does not start with a in a\'s order: %r' % (res,))
         elif nm == 'eq':
-            insts = [table[i] for i in args]
+            insts = [mk(i) for i in args]
             r1, r2, r3, r4 = (s == list(insts)), (s == tuple(insts)), (s == cls(insts)), not (s != list(insts))
             res = bool(r1)
             if not (r1 == r2 == r3 == r4):
@@ -517,7 +607,7 @@ def _run_inst(case):
             if len(set(args)) == len(args) and bool(r1) != (before == args):
                 fail('eq-spec', 'the set of instances %r == the list of instances %r gave %r' % (before, args, r1))
         elif nm == 'in':
-            res = [(table[k] in s) for k in args]
+            res = [(mk(k) in s) for k in args]
             if res != [(k in before) for k in args]:
                 fail('membership', 'in gave %r for the instances %r on %r' % (res, args, before))
         elif nm in ('iter-rm', 'riter-rm', 'iter-rm-del'):
@@ -545,6 +635,48 @@ def _run_inst(case):
             res = visited[::-1] if back else visited      # level abs: the model's forward iteration with removal
             oracle = [k for k in oracle if k not in args]
             mop = [[Sym('iter-rm')] + args]
+        elif nm in ('iter-readd', 'riter-readd'):
+            # D only: while an element is visited the loop body REMOVES it (discard / remove / -=) and puts it back (add / |=),
+            # once per element and at most four times: the element leaves and arrives anew (it is last now); every OTHER element
+            # is still visited exactly once, in order.  The new arrival is behind a forward walk (which may or may not reach
+            # it once more) and was passed by a backward walk.
+            how, want_re = op[1] if len(op) > 1 else 0, args[1:]
+            back = nm == 'riter-readd'
+            visited, re_added = [], []
+            for e in (reversed(s) if back else s):
+                k = name(e)
+                visited.append(k)
+                if k in want_re and k not in re_added and len(re_added) < 4:
+                    if how % 3 == 0:
+                        s.discard(mk(k))
+                    elif how % 3 == 1:
+                        s.remove(mk(k))
+                    else:
+                        s -= [mk(k)]
+                    if (how // 3) % 2 == 0:
+                        s.add(mk(k))
+                    else:
+                        s |= [mk(k)]
+                    re_added.append(k)
+                if len(visited) > 3 * (len(before) + 5):
+                    break
+            firsts, seen_re = [], set()
+            for k in visited:
+                if k in re_added and k in seen_re:
+                    continue                     # the new arrival of a re-added element, met once more
+                if k in re_added:
+                    seen_re.add(k)
+                firsts.append(k)
+            if firsts != (before[::-1] if back else before) or any(visited.count(k) > 2 for k in re_added):
+                fail('iter-remove-current', '%siteration whose body removes the visited element and adds it again (elements %r) '
+                     'visited %r, the set held %r: another element was skipped or repeated'
+                     % ('REVERSE ' if back else '', re_added, visited, before))
+            oracle = [k for k in oracle if k not in re_added] + re_added
+            if re_added and len(before) >= 2:
+                nontrivial = True
+                stats['readd_loops'] = stats.get('readd_loops', 0) + 1
+            no_model = True
+            mop = []
         else:
             raise ValueError(nm)
         mops += mop if mop is not None else [[Sym(nm)] + args]
@@ -565,26 +697,26 @@ def _run_inst(case):
             fail('reversed', 'reversed gives the instances %r for %r' % (rev, items))
         if n != len(items):
             fail('len', 'len gives %d for %r' % (n, items))
-        mem = [t in s for t in table]
-        if mem != [k in items for k in range(len(table))]:
+        mem = [mk(k) in s for k in range(size())]
+        if mem != [k in items for k in range(size())]:
             fail('membership', 'in gives %r over all instances, the set holds %r' % (mem, items))
         if fl != want_ends(items):
-            dead = [k for k in items if isinstance(k, int) and not live[k]]
+            dead = [k for k in items if isinstance(k, int) and flavour is None and not live[k]]
             fail('first-last', 'first/last give the instances %r, the set iterates %r (instances deleted from the metamodel: %r)'
                  % (fl, items, dead))
-        same = [table[k] for k in items if isinstance(k, int)]
+        same = [mk(k) for k in items if isinstance(k, int)]
         if len(same) == len(items) and (not (s == same) or (s != same) or (len(same) > 1 and s == same[::-1])):
             fail('eq-spec', '== / != against the list of its own elements (and its reverse) disagree for %r' % (items,))
-        if len(items) >= 2 and any(isinstance(k, int) and not live[k] for k in items):
+        if len(items) >= 2 and flavour is None and any(isinstance(k, int) and not live[k] for k in items):
             nontrivial = True
         obs.append([res, items, rev, n, fl[0], fl[1]])
-    key = '%s/inst/%r/%s' % (case['cls'], case['kinds'], dumps([[Sym(o[0])] + o[1:] for o in case['ops']]))
+    key = '%s/%s/%r/%s' % (case['cls'], case['level'], case.get('kinds', flavour), dumps([[Sym(o[0])] + o[1:] for o in case['ops']]))
     return {'obs': _norm(obs), 'd_fail': fails[:3], 'nontrivial': nontrivial, 'key': key, 'stats': stats,
-            'model_line': dumps([Sym('oset')] + mops) if mops else None}
+            'model_line': dumps([Sym('oset')] + mops) if mops and not no_model else None}
 
 
 def run_impl(case):
-    if case.get('level') == 'inst':
+    if case.get('level') in ('inst', 'eqv'):
         return _run_inst(case)
     if case.get('level') == 'str':
         return _run_str(case)
